@@ -1,6 +1,6 @@
 """C02 — mixer output equals the documented signal-flow sum (structure of the flow)."""
 from ..paths import describe, pretty_place
-from ..rules import calls_to, calls_where, order_ok, blocks_of, must_pass, self_field_of_call
+from ..rules import calls_to, calls_where, order_ok, blocks_of, must_pass, self_field_of_call, op_sites, frame_op, closure_args
 from ..facts import callee_path
 
 TEXT = ('Structure of the signal flow, not its arithmetic: every scratch buffer lent to a child is accumulated into the '
@@ -56,25 +56,25 @@ def hygiene(F, R):
                 R.bad('B.C02.hygiene', key, 'child process call is not inside a loop over the owning collection', where=b.where(bb))
                 continue
             blocks = L['blocks']
-            adds = [x for x, tt in b.calls() if x in blocks and (callee_path(tt) or '').endswith('::add_assign')
-                    and 'frame::Frame' in (callee_path(tt) or '')]
             fills = [x for x, tt in b.calls() if x in blocks and (callee_path(tt) or '').endswith('core::slice::<impl [T]>::fill')
                      and 'temp_buffer' in describe(b, tt['args'][0]) and 'frame::Frame::ZERO' in describe(b, tt['args'][1])]
             from ..rt import dead_end
             exits = [s for x in blocks for s in b.succ(x) if s not in blocks and not dead_end(b, s)]
             nxt = [t['t']]
-            # the accumulation is itself a loop (zip over the two buffers): its header must be passed
-            acc_headers = [l['header'] for l in b.loops() if l['header'] in blocks and l['header'] != L['header']
-                           and any(a in l['blocks'] for a in adds)]
-            ok_add = bool(adds) and bool(acc_headers) and must_pass(b, nxt, [L['header']] + exits, acc_headers)
-            if ok_add:
-                # and it adds the scratch buffer into `out`
-                for l in b.loops():
-                    if l['header'] in acc_headers:
-                        src = iter_source(b, l)
-                        zsrc = zip_source(b, src_block(b, l))
-                        if not ('temp_buffer' in zsrc and 'out' in zsrc):
-                            ok_add = False
+            # accumulation events: an inner loop (zip over the two buffers) that adds frames, or an iterator call
+            # (for_each / fold) whose closure adds frames; either must be passed on every path of the iteration and
+            # must pair the scratch buffer with `out`
+            direct = set(x for x, tt in b.calls() if frame_op('add_assign')(callee_path(tt) or '', tt))
+            adds = [x for x in op_sites(F, b, frame_op('add_assign')) if x in blocks]
+            events = []
+            for l in b.loops():
+                if l['header'] in blocks and l['header'] != L['header'] and any(a in l['blocks'] for a in adds if a in direct):
+                    events.append((l['header'], zip_source(b, l)))
+            for a in adds:
+                if a not in direct:
+                    events.append((a, describe(b, b.blocks[a]['term']['args'][0], depth=10)))
+            ok_add = bool(events) and must_pass(b, nxt, [L['header']] + exits, [e for e, _ in events]) \
+                and all('temp_buffer' in src and 'out' in src for _, src in events)
             ok_fill = bool(fills) and must_pass(b, nxt, [L['header']] + exits, fills)
             ok_order = bool(adds) and bool(fills) and order_ok_in_loop(b, L, adds, fills)
             why = []
@@ -103,7 +103,7 @@ def hygiene(F, R):
         n += 1
         fills = [x for x, tt in sb.calls() if (callee_path(tt) or '').endswith('core::slice::<impl [T]>::fill')
                  and '.input' in describe(sb, tt['args'][0]) and 'frame::Frame::ZERO' in describe(sb, tt['args'][1])]
-        adds = [x for x, tt in sb.calls() if (callee_path(tt) or '').endswith('::add_assign') and 'frame::Frame' in (callee_path(tt) or '')]
+        adds = op_sites(F, sb, frame_op('add_assign'))
         eff = blocks_of(calls_to(sb, 'effect::Effect::process', suffix=False))
         ok = bool(fills) and bool(adds) and all(sb.dominates(fills[0], r) for r in sb.return_blocks()) \
             and order_ok(sb, adds, fills) and order_ok(sb, fills, eff)
@@ -219,7 +219,7 @@ def order(F, R):
             ('sounds', blocks_of(calls_to(tb, 'sound::Sound::process', suffix=False))),
             ('effects', blocks_of(calls_to(tb, 'effect::Effect::process', suffix=False))),
             ('spatialize', blocks_of(calls_to(tb, 'track::sub::SpatialData::spatialize', suffix=False))),
-            ('fader', [x for x, tt in tb.calls() if (callee_path(tt) or '').endswith('::mul_assign') and 'frame::Frame' in (callee_path(tt) or '')]),
+            ('fader', op_sites(F, tb, frame_op('mul_assign'))),
             ('sends', blocks_of(calls_to(tb, SEND + '::add_input', suffix=False))),
         ]
         ok = True
@@ -245,9 +245,9 @@ def order(F, R):
         b = F.body(owner + '::process')
         if not R.check(b is not None, 'B.C02.order-track', 'anchor:' + owner, 'not found'):
             continue
-        inp = [x for x, tt in b.calls() if (callee_path(tt) or '').endswith('::add_assign') and 'frame::Frame' in (callee_path(tt) or '')]
+        inp = op_sites(F, b, frame_op('add_assign'))
         eff = blocks_of(calls_to(b, 'effect::Effect::process', suffix=False))
-        vol = [x for x, tt in b.calls() if (callee_path(tt) or '').endswith('::mul_assign') and 'frame::Frame' in (callee_path(tt) or '')]
+        vol = op_sites(F, b, frame_op('mul_assign'))
         ok = bool(inp) and bool(eff) and bool(vol) and order_ok(b, inp, eff) and order_ok(b, eff, vol)
         R.check(ok, 'B.C02.order-track', owner.split('::')[-1] + '::process',
                 '%s::process does not apply inputs, then effects, then volume' % owner, detail='inputs ≺ effects ≺ volume', where=b.file)
@@ -293,6 +293,16 @@ import re as _re
 SIZE_RE = _re.compile(r"^std::vec::from_elem\(const frame::Frame::ZERO, (internal_buffer_size|\(\*self\)\.internal_buffer_size|self\.internal_buffer_size)\)$")
 
 
+# buf[..x.len()] and buf[0..x.len()] are the same prefix slice
+PREFIX_RE = _re.compile(r"(?:RangeTo\(|Range\((?:const )?0(?:_usize)?, )core::slice::<impl \[T\]>::len\((.*)$")
+
+
+def prefix_of_len(d, buf, lenof):
+    """Is the described slice `<buf>[..<lenof>.len()]`?"""
+    m = PREFIX_RE.search(d)
+    return bool(m) and buf in d[:m.start()] and any(x in m.group(1) for x in lenof)
+
+
 def scratch_allocations(F):
     """[(buffer name, function, description of the allocated value, where)] for every scratch buffer"""
     out = []
@@ -328,7 +338,7 @@ def nested_slices(F, R, rule='B.C02.ibs'):
                 continue
             n += 1
             d = describe(b, t['args'][1], depth=8, at=bb)
-            ok = d in ('input', '&(*input)', '(*input)') or ('RangeTo' in d and 'core::slice::<impl [T]>::len(' in d and ('input' in d or 'ChunksMut' in d))
+            ok = d in ('input', '&(*input)', '(*input)') or prefix_of_len(d, '', ('input', 'ChunksMut'))
             R.check(ok, rule, 'nested:%s#%d' % (im['self_ty'], n),
                     '%s::process hands %s to its nested effects: not the current chunk nor scratch[..input.len()] (nested stateful effects would '
                     'advance by a different number of frames than were processed, so the output depends on how the input is split)'
@@ -357,7 +367,7 @@ def ibs(F, R):
             if cp in CHILD_PROCESS or cp in ('effect::Effect::process', MAIN + '::process'):
                 m += 1
                 d = describe(b, t['args'][1], depth=8)
-                ok = d in ('out', '&(*out)', '(*out)') or ('temp_buffer' in d and 'RangeTo' in d and 'len(' in d and 'out' in d)
+                ok = d in ('out', '&(*out)', '(*out)') or prefix_of_len(d, 'temp_buffer', ('out',))
                 R.check(ok, 'B.C02.ibs', 'slice:%s->%s' % (owner.split('::')[-1], cp.split('::')[-2] + '::' + cp.split('::')[-1]) + '#%d' % m,
                         '%s hands %s to %s: not the incoming buffer nor temp_buffer[..out.len()]' % (owner, d[:160], cp),
                         detail={'owner': owner, 'callee': cp, 'slice': d[:140]}, where=b.where(bb))
